@@ -219,7 +219,9 @@ _R12 = {
            'COPYOUT-BEFORE-OK: every Ok result of BCJReader::read is built behind the step that copies buffered bytes to the caller (or for an empty buffer only).',
     'C08': ' SIZE-FIELD-TWIN (see C01): the MT cutter takes the payload length from the header offsets at which the writer puts compressed - 1.',
     'C09': ' WAIT-TARGET: the blocking drain loop of an MT writer\'s flush continues only while written < (a value of) the dispatch counter.',
-    'C14': ' RC-NORM-TWIN (see C01): the assembly direct-bit decoder skips the normalisation with jae/jnb like the portable loop.',
+    'C14': ' RC-NORM-TWIN (see C01): the assembly direct-bit decoder skips the normalisation with jae/jnb like the portable loop. '
+           'GUARD-FIELD-WRITERS (see C15), exactness clause: the u16-read limit is the allocated length minus the width read, not less, so the clamp '
+           'cannot bite at a position where the checked twin still compares the right pair.',
     'C16': ' NORMALIZE-AT-END: LZMADecoder::decode builds every Ok result behind a RangeDecoder::normalize call. END-FLAG-GATES: in '
            'LZMAReader, LZMA2Reader and XZReader every source pull reachable from `read` is behind the false edge of a test of the end flag.',
     'C17': ' SINGLE-DECODER: a reader method that rebuilds its LZMADecoder drops the previous one before the constructor call.',
